@@ -80,6 +80,15 @@ func buildFree(t *clustermc.Transition, upToAction string) []*nodeFree {
 		for g, u := range devUsed {
 			f.devFree[g] = 1 - u
 		}
+		if f.gpus < 0 {
+			// more whole GPUs are charged (nominated pods included) than the node has: a nominated
+			// whole-GPU pod waits for a device that terminating pods still hold - possibly a SHARED device,
+			// whose free remainder is then reserved too. Conservative: no shared device of this node counts
+			// as having idle room.
+			for g := range f.devFree {
+				f.devFree[g] = 0
+			}
+		}
 		out = append(out, f)
 	}
 	sort.Slice(out, func(i, j int) bool { return out[i].name < out[j].name })
@@ -201,7 +210,13 @@ func WorkConservationOracle() clustermc.Oracle {
 					break
 				}
 				if touched[p.Name] {
+					// placed (bound or nominated) by the allocate action of this very cycle: a member from now on.
+					// The workload is judged for what is STILL unplaced after the action - an elastic workload
+					// whose first round was placed has to be taken up again while capacity is idle.
 					anyTouched = true
+					s.active++
+					s.alive++
+					continue
 				}
 				switch {
 				case ActiveAllocated(t.Pre, p):
@@ -217,8 +232,11 @@ func WorkConservationOracle() clustermc.Oracle {
 					ok = false
 				}
 			}
-			if !ok || anyTouched || j.PG.Spec.TopologyConstraint.Topology != "" {
+			if !ok || j.PG.Spec.TopologyConstraint.Topology != "" {
 				continue
+			}
+			if anyTouched {
+				t.Stats["workloads_partly_placed_by_allocate_judged_for_the_rest"]++
 			}
 			// what must be placed: missing-to-min per pod set, or one pod if the gang is satisfied
 			var need []*corev1.Pod
